@@ -447,62 +447,65 @@ theorem C20_gen_ping (cfg : Config F) (n : Node F) (peer : String) (rttNs : Int)
 
 /-- **Regenerated tie (arithmetic bodies).** The statements of the functions the model transcribes by hand
 (latencyFilter, updateVivaldi with the error clamp, updateAdjustment, updateGravity, ApplyForce with the height
-clamp, unitVectorAt, NewCoordinate), comments and layout stripped, are the ones the model was written against.
-Any change of an expression, a comparison, a constant or the order of two statements breaks this obligation; the
+clamp, unitVectorAt, NewCoordinate), in the CANONICAL form of extract/canon.go (locals, parameters and receivers
+renamed v0, v1, …; constants resolved to their values and literals normalised; index-only range loops as value
+loops; `>`/`>=` oriented as `<`/`<=`; `op=` spelled out; comments and layout dropped), are the ones the model was
+written against.  Renaming, hoisting a literal into a constant, an index loop versus a value loop or a flipped
+comparison change nothing here; a change of an expression, an operator, a constant's VALUE or the order of two
+statements breaks this obligation; the
 differential run then finds the input on which the behaviour differs. -/
 theorem C20_gen_pinned_sources : CoordGuards.pinned = [
   ("latencyFilter", [
-    "samples, ok := c.latencyFilterSamples[node]",
-    "if !ok { samples = make([]float64, 0, c.config.LatencyFilterSize) }",
-    "samples = append(samples, rttSeconds)",
-    "if len(samples) > int(c.config.LatencyFilterSize) { samples = samples[1:] }",
-    "c.latencyFilterSamples[node] = samples",
-    "sorted := make([]float64, len(samples))",
-    "copy(sorted, samples)",
-    "sort.Float64s(sorted)",
-    "return sorted[len(sorted)/2]"]),
+    "v3, v4 := v0.latencyFilterSamples[v1]",
+    "if !v4 { v3 = make([]float64, 0, v0.config.LatencyFilterSize) }",
+    "v3 = append(v3, v2)",
+    "if int(v0.config.LatencyFilterSize) < len(v3) { v3 = v3[1:] }",
+    "v0.latencyFilterSamples[v1] = v3",
+    "v5 := make([]float64, len(v3))",
+    "copy(v5, v3)",
+    "sort.Float64s(v5)",
+    "return v5[len(v5)/2]"]),
   ("updateVivaldi", [
-    "const zeroThreshold = 1.0e-6",
-    "dist := c.coord.DistanceTo(other).Seconds()",
-    "if rttSeconds < zeroThreshold { rttSeconds = zeroThreshold }",
-    "wrongness := math.Abs(dist-rttSeconds) / rttSeconds",
-    "totalError := c.coord.Error + other.Error",
-    "if totalError < zeroThreshold { totalError = zeroThreshold }",
-    "weight := c.coord.Error / totalError",
-    "c.coord.Error = c.config.VivaldiCE*weight*wrongness + c.coord.Error*(1.0-c.config.VivaldiCE*weight)",
-    "if c.coord.Error > c.config.VivaldiErrorMax { c.coord.Error = c.config.VivaldiErrorMax }",
-    "delta := c.config.VivaldiCC * weight",
-    "force := delta * (rttSeconds - dist)",
-    "c.coord = c.coord.ApplyForce(c.config, force, other)"]),
+    "v3 := v0.coord.DistanceTo(v1).Seconds()",
+    "if v2 < 1e-06 { v2 = 1e-06 }",
+    "v4 := math.Abs(v3-v2) / v2",
+    "v5 := v0.coord.Error + v1.Error",
+    "if v5 < 1e-06 { v5 = 1e-06 }",
+    "v6 := v0.coord.Error / v5",
+    "v0.coord.Error = v0.config.VivaldiCE*v6*v4 + v0.coord.Error*(1-v0.config.VivaldiCE*v6)",
+    "if v0.config.VivaldiErrorMax < v0.coord.Error { v0.coord.Error = v0.config.VivaldiErrorMax }",
+    "v7 := v0.config.VivaldiCC * v6",
+    "v8 := v7 * (v2 - v3)",
+    "v0.coord = v0.coord.ApplyForce(v0.config, v8, v1)"]),
   ("updateAdjustment", [
-    "if c.config.AdjustmentWindowSize == 0 { return }",
-    "dist := c.coord.rawDistanceTo(other)",
-    "c.adjustmentSamples[c.adjustmentIndex] = rttSeconds - dist",
-    "c.adjustmentIndex = (c.adjustmentIndex + 1) % c.config.AdjustmentWindowSize",
-    "sum := 0.0",
-    "for _, sample := range c.adjustmentSamples { sum += sample }",
-    "c.coord.Adjustment = sum / (2.0 * float64(c.config.AdjustmentWindowSize))"]),
+    "if v0.config.AdjustmentWindowSize == 0 { return }",
+    "v3 := v0.coord.rawDistanceTo(v1)",
+    "v0.adjustmentSamples[v0.adjustmentIndex] = v2 - v3",
+    "v0.adjustmentIndex = (v0.adjustmentIndex + 1) % v0.config.AdjustmentWindowSize",
+    "v4 := 0",
+    "for _, v5 := range v0.adjustmentSamples { v4 = v4 + v5 }",
+    "v0.coord.Adjustment = v4 / (2 * float64(v0.config.AdjustmentWindowSize))"]),
   ("updateGravity", [
-    "dist := c.origin.DistanceTo(c.coord).Seconds()",
-    "force := -1.0 * math.Pow(dist/c.config.GravityRho, 2.0)",
-    "c.coord = c.coord.ApplyForce(c.config, force, c.origin)"]),
+    "v1 := v0.origin.DistanceTo(v0.coord).Seconds()",
+    "v2 := -1 * math.Pow(v1/v0.config.GravityRho, 2)",
+    "v0.coord = v0.coord.ApplyForce(v0.config, v2, v0.origin)"]),
   ("ApplyForce", [
-    "if !c.IsCompatibleWith(other) { panic(DimensionalityConflictError{}) }",
-    "ret := c.Clone()",
-    "unit, mag := unitVectorAt(config.rand, c.Vec, other.Vec)",
-    "ret.Vec = add(ret.Vec, mul(unit, force))",
-    "if mag > zeroThreshold { ret.Height = (ret.Height+other.Height)*force/mag + ret.Height ret.Height = math.Max(ret.Height, config.HeightMin) }",
-    "return ret"]),
+    "if !v0.IsCompatibleWith(v3) { panic(DimensionalityConflictError{}) }",
+    "v4 := v0.Clone()",
+    "v5, v6 := unitVectorAt(v1.rand, v0.Vec, v3.Vec)",
+    "v4.Vec = add(v4.Vec, mul(v5, v2))",
+    "if 1e-06 < v6 { v4.Height = (v4.Height+v3.Height)*v2/v6 + v4.Height v4.Height = math.Max(v4.Height, v1.HeightMin) }",
+    "return v4"]),
   ("unitVectorAt", [
-    "ret := diff(vec1, vec2)",
-    "if mag := magnitude(ret); mag > zeroThreshold { return mul(ret, 1.0/mag), mag }",
-    "for i := range ret { if rng != nil { ret[i] = rng.Float64() - 0.5 } else { ret[i] = rand.Float64() - 0.5 } }",
-    "if mag := magnitude(ret); mag > zeroThreshold { return mul(ret, 1.0/mag), 0.0 }",
-    "ret = make([]float64, len(ret))",
-    "ret[0] = 1.0",
-    "return ret, 0.0"]),
+    "v3 := diff(v1, v2)",
+    "if v4 := magnitude(v3); 1e-06 < v4 { return mul(v3, 1/v4), v4 }",
+    "for v5 := range v3 { if v0 != nil { v3[v5] = v0.Float64() - 0.5 } else { v3[v5] = rand.Float64() - 0.5 } }",
+    "if v4 := magnitude(v3); 1e-06 < v4 { return mul(v3, 1/v4), 0 }",
+    "v3 = make([]float64, len(v3))",
+    "v3[0] = 1",
+    "return v3, 0"]),
   ("NewCoordinate", [
-    "return &Coordinate{Vec: make([]float64, config.Dimensionality), Error: config.VivaldiErrorMax, Adjustment: 0.0, Height: config.HeightMin}"])] := rfl
+    "return &Coordinate{Vec: make([]float64, v0.Dimensionality), Error: v0.VivaldiErrorMax, Adjustment: 0, Height: v0.HeightMin}"])] := rfl
 
 end gen
 
